@@ -220,6 +220,28 @@ def _grid_case(args):
         signal.signal(signal.SIGALRM, old)
 
 
+def confirm_fresh(pid, name, assign, label):
+    """True: the input fails the same clause when replayed alone in a fresh interpreter; False: it does not; None: the replay itself could not be run (the in-run
+    result then stands)"""
+    import subprocess
+    env = dict(os.environ, PYVC_CASE_JSON="1")
+    env.pop("PYVC_DEBUG", None)
+    try:
+        out = subprocess.run([sys.executable, os.path.join(HERE, "tools", "run_case.py"), pid, name, json.dumps(assign, default=str)],
+                             capture_output=True, text=True, env=env, cwd=HERE,
+                             timeout=float(os.environ.get("PYVC_CASE_TIMEOUT", "60" if os.environ.get("PYVC_TIER", "quick") == "quick" else "900")) + 30)
+        line = next((ln for ln in out.stdout.splitlines() if ln.startswith("PYVC_CASE_RESULT ")), None)
+        if line is None:
+            return None
+        res = json.loads(line[len("PYVC_CASE_RESULT "):])
+    except Exception:
+        return None
+    if label.startswith("exception"):
+        key = ":".join(label.split(":")[:2])
+        return any(f.startswith(key) for f in res["failures"])
+    return label in res["failures"]
+
+
 def run_grid(cdef, tier, seed, max_fail=300, procs=16):
     """bounded stand-in / concrete enumeration: returns stats dict (cases are evaluated in a process pool)"""
     ev = nontriv = skipped = 0
@@ -287,6 +309,7 @@ def main(argv=None):
     ledger = load_json(os.path.join(HERE, "ledger", f"{pid}.json"), {"clauses": {}})
 
     checker_errors, undecided, violations, known_hits = [], [], [], []
+    unconfirmed = set()
     all_obls, by_backend, solver_s = [], {}, 0.0
     clause_status = {}
     functions = {}
@@ -441,8 +464,20 @@ def main(argv=None):
                         if (hit, clause) not in known_hits:
                             known_hits.append((hit, clause))
                         continue
-                    if any(v[0] == clause for v in violations):
+                    if any(v[0] == clause for v in violations) or clause in unconfirmed:
                         continue
+                    # the failing input is replayed in a fresh process: a failure that only shows after other cases have run in the same worker is
+                    # an effect of shared state (the harness' or the library's), not decided by this input alone -- undecided, never a violation
+                    confirmed = confirm_fresh(pid, cd.name, fl["assign"], lab)
+                    if confirmed is False:
+                        tries = [f2 for f2 in st["fails"] if f2 is not fl and lab in f2["failures"]][:2]
+                        alt = next((f2 for f2 in tries if confirm_fresh(pid, cd.name, f2["assign"], lab)), None)
+                        if alt is None:
+                            unconfirmed.add(clause)
+                            checker_errors.append(f"{clause}: failed on {fl['assign']} inside the run but not when that input is replayed alone in a fresh process "
+                                                  f"(depends on state left by earlier cases): undecided, not a violation")
+                            continue
+                        fl = alt
                     path = write_replay(pid, clause, {"property": pid, "clause": clause, "contract": cd.full, "kind": "bounded",
                                                       "functions": cd.funcs, "input": fl["assign"], "native_failures": fl["failures"],
                                                       "reproduced_on_real_code": True})
@@ -466,6 +501,15 @@ def main(argv=None):
     elif has_proof:
         level = "other"
     else:
+        level = "exploration"
+    # the level recorded is the one claimed in MANIFEST.json (tools/claims.json) where that is the weaker one: a property whose decisive part is a bounded
+    # stand-in is claimed as exploration even though some of its contracts are proved (their obligations are still listed below)
+    try:
+        with open(os.path.join(HERE, "tools", "claims.json")) as f:
+            claimed = json.load(f).get(pid, {}).get("category")
+    except (OSError, ValueError):
+        claimed = None
+    if claimed == "exploration" and level == "proof":
         level = "exploration"
     cov = {
         "obligations": n_obl, "discharged": n_dis,
